@@ -41,6 +41,10 @@ def run(prog, rep, tier):
             one(prog, rep, tier, fn, Z)
     finally:
         A.TERM_LIMIT = old_limit
+    # both decoders rest on nl(): C04's rule N1 (decision list = 59-zone formula) is evaluated here too, so that a
+    # change of the NL table is reported under this property as well
+    from props import c04
+    c04.run(prog, util.Prefixed(rep, 'G6/'), tier, only='N1')
 
 
 def one(prog, rep, tier, fn, Z):
